@@ -118,3 +118,34 @@ def aad_rule(t, rid, which):
         r = RuleResult(rid, "connect-token AAD layout: version | protocol id | expire timestamp in disjoint ranges covering the whole buffer", floor=3)
         aad_layout(t, t.fn("renetcode::token::get_additional_data"), r, {"version": r"NETCODE_VERSION_INFO", "protocol id": r"to_le_bytes\(P\d\(protocol_id\)\)", "expire timestamp": r"to_le_bytes\(P\d\(expire_timestamp\)\)"})
     return r
+
+
+def slots_match_limit(t, rid):
+    """the slot array and the client limit move together: whenever max_clients is changed outside `new`, a resize of the slots uses exactly the
+    new limit as length (never more: the 'no free slot' refusal relies on len(clients) <= max_clients) and happens only when it grows
+    (never truncating occupied slots); in `new` both come from the same configuration value"""
+    NS = "server::NetcodeServer"
+    r = RuleResult(rid, "client slots and max_clients move together: resize to exactly the new limit, only when growing; equal in new()", floor=3)
+    for s in t.stores(NS, "max_clients"):
+        f = s.fn
+        if f.path.endswith("::new"): continue
+        r.site(s, "limit store")
+        lim = t.stored(s)
+        rz = [c for c in t.calls(r"Vec.*::resize$|::resize$", f) if t.mentions_field(t.arg(c, 0), "clients")]
+        st = list(t.stores(NS, "clients", f))
+        if not rz or not st: r.bad(f"{f.path}|no-resize", s, "max_clients can be raised above the number of client slots: later handshakes are denied although the limit allows them"); continue
+        for c in rz:
+            r.site(c, "resize")
+            n = t.arg(c, 1)
+            if not same(n, lim): r.bad(f"{f.path}|resize-len", c, f"slots resized to {fmt(n)[:60]} but the limit becomes {fmt(lim)[:60]}: more (or fewer) slots than max_clients")
+            g = [(br, op, te, fe) for br, op, te, fe in t.find_cmp(f, lambda a: same(a, n), lambda b: "::len(" in fmt(b) and t.mentions_field(b, "clients"), None)]
+            if not any(op == "Gt" and t.edge_dominates(f, te, c.bb) for br, op, te, fe in g) and not any(op == "Le" and t.edge_dominates(f, fe, c.bb) for br, op, te, fe in g):
+                r.bad(f"{f.path}|resize-guard", c, "slots are resized without the test `new limit > clients.len()`: lowering or re-raising the limit can truncate occupied slots (clients vanish without ClientDisconnected)")
+        for x in st:
+            if not t.mentions_call(t.stored(x), r"resize|into_boxed_slice|into_vec"): r.bad(f"{f.path}|clients-store", x, f"clients replaced by {fmt(t.stored(x))[:60]}")
+    nw = t.fn("NetcodeServer::new")
+    for a in t.aggrs(NS, None, nw):
+        r.site(a, "constructor")
+        cl, mc = fmt(t.field_of_aggr(a, "clients")), fmt(t.field_of_aggr(a, "max_clients"))
+        if mc not in cl: r.bad("new|mismatch", a, f"new(): slots built from {cl[:60]} but max_clients = {mc[:40]}")
+    return r
